@@ -2,6 +2,7 @@ import AITB.Model.Num
 import Driver.C10
 import Driver.C14
 import Driver.C16
+import Driver.C07
 open AITB
 
 def handleLine (line : String) : String :=
@@ -12,6 +13,7 @@ def handleLine (line : String) : String :=
   | "C10" :: rest => DrvC10.handle rest
   | "C14" :: rest => DrvC14.handle rest
   | "C16" :: rest => DrvC16.handle rest
+  | "C07" :: rest => DrvC07.handle rest
   | _ => "bad-op"
 
 partial def loop (h : IO.FS.Stream) (out : IO.FS.Stream) : IO Unit := do
